@@ -23,8 +23,10 @@ func swarmWorld(e *Env) world.Config {
 	cfg.FragProb = []int{100, 0, 500}[c.Choose("frag", 3)]
 	cfg.WClock = 1
 	// one run in four: the backend demands password authentication on every connection
+	// (half of those the way a DSE node does: mechanism name, challenge, then the credentials)
 	if c.Choose("auth", 4) == 3 {
 		cfg.AuthUser, cfg.AuthPass = "cassandra", "s3cret"
+		cfg.AuthDSE = c.Choose("authdse", 2) == 1
 	}
 	// one run in five schedules tasks by PCT priorities instead of uniformly
 	cfg.PCT = []int{0, 0, 0, 0, 3}[c.Choose("pct", 5)]
@@ -36,18 +38,19 @@ func swarmWorld(e *Env) world.Config {
 func c01Params(e *Env) fwdParams {
 	c := e.C
 	p := fwdParams{
-		Hosts:        1 + c.Choose("hosts", 4),
-		NumConns:     []int{1, 2, 1, 2, 3, 4}[c.Choose("numconns", 6)],
-		Clients:      1 + c.Choose("clients", 4),
-		OpsPerClient: 5 + c.Choose("ops", 20),
-		MaxInflight:  1 + c.Choose("inflight", 8),
-		ErrPerMille:  []int{300, 0, 700}[c.Choose("errrate", 3)],
-		Faults:       3,
-		Kinds:        []int{40, 8, 20, 8, 4, 3, 2, 2, 2, 2, 2, 2},
-		Compression:  []string{"", "", "lz4", "snappy"},
-		Versions:     []primitive.ProtocolVersion{primitive.ProtocolVersion4, primitive.ProtocolVersion4, primitive.ProtocolVersion3},
-		Disconnects:  true,
-		DupPrepares:  true,
+		SystemPrepares: true,
+		Hosts:          1 + c.Choose("hosts", 4),
+		NumConns:       []int{1, 2, 1, 2, 3, 4}[c.Choose("numconns", 6)],
+		Clients:        1 + c.Choose("clients", 4),
+		OpsPerClient:   5 + c.Choose("ops", 20),
+		MaxInflight:    1 + c.Choose("inflight", 8),
+		ErrPerMille:    []int{300, 0, 700}[c.Choose("errrate", 3)],
+		Faults:         3,
+		Kinds:          []int{40, 8, 20, 8, 4, 3, 2, 2, 2, 2, 2, 2},
+		Compression:    []string{"", "", "lz4", "snappy"},
+		Versions:       []primitive.ProtocolVersion{primitive.ProtocolVersion4, primitive.ProtocolVersion4, primitive.ProtocolVersion3},
+		Disconnects:    true,
+		DupPrepares:    true,
 	}
 	if e.Tier == "thorough" {
 		p.Clients = 1 + c.Choose("clients2", 6)
